@@ -23,13 +23,14 @@ META = dict(
     stubs=["np.interp -> its documented contract (piecewise-linear, end values held)", "signal.lfilter(fir, 1, x, axis=-1) with concrete taps -> FIR convolution in Python",
            "numba.njit -> identity (the numba definitions of the nearest-sample search are compiled from the module's AST)",
            "round() on a symbolic real -> an integer within 1/2 (both neighbours at a tie)",
-           "psd.area: positive inputs are given by their logarithms (np.log returns it; products/quotients add/subtract logarithms); exp -> uninterpreted positive function"],
-    outside=["psd.interp, get_freq_oct band-centre formulas (log/power of symbolic values)", "numerical accuracy of psd.area's logarithmic closed form within 1e-4 of slope -1 (a conditioning allowance: relative error <= |s+1| ln(f2/f1)/2)", "Lanczos accuracy for band-limited signals",
+           "psd.area: positive inputs are given by their logarithms (np.log returns it; products/quotients add/subtract logarithms); exp -> uninterpreted positive function",
+           "psd.interp: scipy.interpolate.interp1d -> its documented contract for (linear, axis 0, bounds_error False, scalar fill, sorted) - any other argument combination is reported"],
+    outside=["get_freq_oct band-centre formulas (log/power of symbolic values)", "scipy.interpolate.interp1d itself (psd.interp is decided against its documented contract; SciPy's code is not executed symbolically)", "numerical accuracy of psd.area's logarithmic closed form within 1e-4 of slope -1 (a conditioning allowance: relative error <= |s+1| ln(f2/f1)/2)", "Lanczos accuracy for band-limited signals",
              "the rest of fixtime (sample-rate statistics, drop-out / spike removal, turning-point alignment)"],
     assumptions=["band layouts and (p, q, pts, n) are concrete (enumerated); PSD values, data samples and time stamps are symbolic",
                  "nearest/previous-sample search: old times strictly increasing; the new uniform grid starts within one step of the first old time and ends within 1.5 steps of the last (what fixtime passes)"],
     reach_required=["rescale-linear", "rescale-log", "rescale-octave", "rescale-partial-overlap", "resample-up", "resample-down", "resample-axis",
-                    "closest-tie", "closest-gap", "previous", "base-shift", "area", "area-additive"],
+                    "closest-tie", "closest-gap", "previous", "base-shift", "area", "area-additive", "interp-log", "interp-linear", "interp-own-frequency"],
     trusted_base=["z3 5.1", "CPython 3.12", "NumPy array semantics on dtype=object"],
 )
 
@@ -693,10 +694,192 @@ def replay_area(p):
 REPLAY["area"] = replay_area
 
 
+# ---------------------------------------------------------------------------
+# K6 psd.interp: log-log (or linear) interpolation, zero outside the specification, specification values at its own frequencies
+
+class Interp1dContract:
+    """scipy.interpolate.interp1d by its documented contract for the arguments psd.interp passes
+    (linear kind, axis 0, bounds_error False, a scalar fill value, sorted abscissae);
+    any other argument combination is reported as a violation of the wiring"""
+
+    def __init__(self, x, y, kind="linear", axis=-1, copy=True, bounds_error=None, fill_value=np.nan, assume_sorted=False):
+        if kind != "linear" or axis != 0 or bounds_error is not False or not assume_sorted or isinstance(fill_value, (tuple, str)):
+            raise AssertionError("interp1d called outside the modelled contract: kind=%r axis=%r bounds_error=%r assume_sorted=%r fill_value=%r"
+                                 % (kind, axis, bounds_error, assume_sorted, fill_value))
+        self.x, self.y, self.fill = np.asarray(x), np.asarray(y), fill_value
+        if len(self.x) != self.y.shape[0]:
+            raise ValueError("x and y arrays must be equal in length along interpolation axis.")
+
+    def __call__(self, xq):
+        xq = np.asarray(xq)
+        x, y = self.x, self.y
+        out = np.empty(xq.shape + y.shape[1:], dtype=object)
+        for k in range(xq.shape[0]):
+            q = xq[k]
+            if q < x[0] or q > x[-1]:
+                out[k] = self.fill
+                continue
+            i = 0
+            while i < len(x) - 2 and q > x[i + 1]:
+                i += 1
+            slope = (y[i + 1] - y[i]) / (x[i + 1] - x[i])
+            out[k] = slope * (q - x[i]) + y[i]
+        return out
+
+
+def _logpos_cmp(op):
+    def f(s, o):
+        if isinstance(o, LogPos):
+            return bool(op(S.SymR(s.l), S.SymR(o.l)))
+        return bool(op(s.val(), o))
+    return f
+
+
+import operator as _op
+for _n, _f in (("__ge__", _op.ge), ("__le__", _op.le), ("__gt__", _op.gt), ("__lt__", _op.lt)):
+    setattr(LogPos, _n, _logpos_cmp(_f))
+
+
+class NPI(NPL):
+    def log(self, x):
+        if isinstance(x, np.ndarray) and x.dtype == object:
+            out = np.empty(x.shape, dtype=object)
+            for ix in np.ndindex(x.shape):
+                out[ix] = S.SymR(x[ix].l) if isinstance(x[ix], LogPos) else np.log(x[ix])
+            return out
+        return NPL.log(self, x)
+
+    def exp(self, x):
+        def one(v):
+            if S.is_sym(v):
+                t = EXPF(z3.simplify(S.lift(v)))
+                S.eng().assume(t > 0)
+                return S.SymR(t)
+            return np.exp(v)
+        if isinstance(x, np.ndarray) and x.dtype == object:
+            out = np.empty(x.shape, dtype=object)
+            for ix in np.ndindex(x.shape):
+                out[ix] = one(x[ix])
+            return out
+        return one(x)
+
+
+def interp_fn(npts, ncol, nq, linear, pin):
+    """npts break points, ncol PSD columns (0: the 1d second form of `spec`), nq query frequencies;
+    pin: the first query frequency is the pin-th break point itself (None: free)"""
+    def fn(eng):
+        S.set_engine(eng)
+        import pyyeti.psd as psd
+        f = rebind([psd.proc_psd_spec, psd.interp], dict(np=NPI(), interp1d=Interp1dContract))
+        nc = max(ncol, 1)
+        info = dict(npts=npts, ncol=ncol, nq=nq, linear=linear, pin=pin)
+        xs = [z3.Real("lf%d" % i) for i in range(npts)]
+        ys = [[z3.Real("lp%d_%d" % (i, j)) for j in range(nc)] for i in range(npts)]
+        qs = [z3.Real("lq%d" % k) for k in range(nq)]
+        lo, hi = (0, 10) if not linear else (1, 100)
+        for i in range(npts):
+            eng.assume(z3.And(xs[i] >= lo, xs[i] <= hi))
+            if i:
+                eng.assume(xs[i] - xs[i - 1] >= z3.RealVal("0.1"))
+            for j in range(nc):
+                eng.assume(z3.And(ys[i][j] >= (-10 if not linear else 0), ys[i][j] <= 10))
+        for k in range(nq):
+            eng.assume(z3.And(qs[k] >= lo - 1, qs[k] <= hi + 1))
+        if pin is not None:
+            eng.assume(qs[0] == xs[pin])
+        mk = (lambda t: LogPos(t)) if not linear else (lambda t: S.SymR(t))
+        F = np.array([mk(x) for x in xs], dtype=object)
+        P = np.empty((npts, nc), dtype=object)
+        for i in range(npts):
+            for j in range(nc):
+                P[i, j] = mk(ys[i][j])
+        Q = np.array([mk(x) for x in qs], dtype=object)
+        try:
+            got = f["interp"]((F, P if ncol else P[:, 0]), Q, linear=linear)
+        except E.Inconclusive:
+            raise
+        except Exception as ex:
+            import traceback
+            return [E.Obl("psd.interp raises %r (%s)" % (ex, traceback.format_exc()[-300:]), False, info=info)]
+        shape = (nq, ncol) if ncol else (nq,)
+        obls = [E.Obl("psd.interp returns one row per requested frequency and one column per PSD", np.shape(got) == shape, info=info)]
+        if np.shape(got) != shape:
+            return obls
+        got = np.asarray(got, dtype=object).reshape(nq, nc)
+        val = (lambda t: EXPF(z3.simplify(t))) if not linear else (lambda t: t)
+        for k in range(nq):
+            for j in range(nc):
+                g = S.lift(got[k, j])
+                alts = [z3.And(z3.Or(qs[k] < xs[0], qs[k] > xs[-1]), g == 0)]
+                for i in range(npts - 1):
+                    sl = (ys[i + 1][j] - ys[i][j]) / (xs[i + 1] - xs[i])
+                    alts.append(z3.And(qs[k] >= xs[i], qs[k] <= xs[i + 1], g == val(sl * (qs[k] - xs[i]) + ys[i][j])))
+                obls.append(E.Obl("psd.interp value %d column %d: the %s interpolation of the bracketing break points inside the specification's range, 0 outside"
+                                  % (k, j, "linear" if linear else "log-log"), z3.Or(alts), info=info))
+        if pin is not None:
+            for j in range(nc):
+                obls.append(E.Obl("psd.interp at the specification's own frequency %d returns the specification value (column %d)" % (pin, j),
+                                  S.lift(got[0, j]) == val(ys[pin][j]), info=info))
+        eng.tag("interp-linear" if linear else "interp-log")
+        if pin is not None:
+            eng.tag("interp-own-frequency")
+        return obls
+    return fn
+
+
+def replay_interp(p):
+    import mpmath as mp
+    import pyyeti.psd as psd
+    mp.mp.dps = 40
+    mdl = p["model"]
+    npts, ncol, nq, linear = p["npts"], p["ncol"], p["nq"], p["linear"]
+    nc = max(ncol, 1)
+    g = lambda k, d: Fraction(mdl.get(k, d) if mdl.get(k) is not None else d)
+    xs = [g("lf%d" % i, i + 1) for i in range(npts)]
+    ys = [[g("lp%d_%d" % (i, j), 1) for j in range(nc)] for i in range(npts)]
+    qs = [g("lq%d" % k, 1) for k in range(nq)]
+    pin = p.get("pin")
+    if pin is not None:
+        qs[0] = xs[pin]
+    tof = (lambda x: float(mp.exp(mp.mpf(x.numerator) / x.denominator))) if not linear else float
+    F = np.array([tof(x) for x in xs])
+    P = np.array([[tof(x) for x in row] for row in ys])
+    Q = np.array([tof(x) for x in qs])
+    if pin is not None:
+        Q[0] = F[pin]
+    if np.any(np.diff(F) <= 0):
+        return False, "model frequencies not increasing"
+    try:
+        got = np.asarray(psd.interp((F, P if ncol else P[:, 0]), Q, linear=linear), float).reshape(nq, nc)
+    except Exception as ex:
+        return True, "psd.interp((%s, %s), %s, linear=%s) raises %r" % (F.tolist(), P.tolist(), Q.tolist(), linear, ex)
+    msgs = []
+    for k in range(nq):
+        for j in range(nc):
+            if Q[k] < F[0] or Q[k] > F[-1]:
+                want = mp.mpf(0)
+            else:
+                i = max(0, min(int(np.searchsorted(F, Q[k], side="left")) - 1, npts - 2))
+                f1, f2, p1, p2, q = [mp.mpf(float(v)) for v in (F[i], F[i + 1], P[i, j], P[i + 1, j], Q[k])]
+                if linear:
+                    want = p1 + (p2 - p1) * (q - f1) / (f2 - f1)
+                else:
+                    want = p1 * (q / f1) ** (mp.log(p2 / p1) / mp.log(f2 / f1))
+            if abs(got[k, j] - want) > 1e-9 * max(1, abs(want)) * (1 if linear else 1 + abs(float(mp.log(max(want, mp.mpf(10) ** -300))))):
+                msgs.append("psd.interp((%s, %s), %r, linear=%s) is %r, the interpolation of the specification is %s"
+                            % (F.tolist(), P[:, j].tolist(), float(Q[k]), linear, got[k, j], mp.nstr(want, 17)))
+    if msgs:
+        return True, "; ".join(msgs[:2])
+    return False, "psd.interp fine on the real code"
+
+
+REPLAY["interp"] = replay_interp
+
+
 def job(kind, *args, split_depth=None, roots=None):
     eng = E.Engine()
-    fn = dict(rescale=rescale_fn, resample=resample_fn, closest=closest_fn, base=base_fn, area=area_fn)[kind](*args)
-    if kind in ("rescale", "resample", "area"):
+    fn = dict(rescale=rescale_fn, resample=resample_fn, closest=closest_fn, base=base_fn, area=area_fn, interp=interp_fn)[kind](*args)
+    if kind in ("rescale", "resample", "area", "interp"):
         eng.obl_mode = "each"
     res = eng.explore(fn, max_cex=3, roots=roots, split_depth=split_depth)
     res["note"] = "%s %s" % (kind, str(args)[:100])
@@ -737,12 +920,16 @@ def jobs(tier, seed):
         out.append(H.Job("base-%g" % sr, job, "base", sr, weight=5))
     for a in [(2, 1, False), (3, 1, False), (2, 2, False), (3, 1, True)] + ([] if q else [(4, 1, False), (3, 2, True)]):
         out.append(H.Job("area-%d-%d-%s" % a, job, "area", *a, weight=10))
+    # (break points, PSD columns [0: 1d second form], queries, linear, query 0 pinned to break point)
+    for a in [(2, 1, 1, False, None), (3, 1, 1, False, None), (3, 0, 1, False, 0), (3, 1, 1, False, 2), (3, 2, 2, False, 1), (3, 1, 1, True, None), (3, 0, 2, True, 2), (2, 2, 1, True, 0)] + \
+            ([] if q else [(4, 1, 2, False, None), (4, 2, 1, False, 3), (4, 1, 2, True, 0), (5, 1, 1, False, None)]):
+        out.append(H.Job("interp-%d-%d-%d-%s-%s" % a, job, "interp", *a, weight=10))
     return out
 
 
 def extra_coverage(results):
     import pyyeti.psd as psd
     import pyyeti.dsp as dsp
-    return dict(functions_encoded=[H.fn_id(psd.rescale), H.fn_id(psd.get_freq_oct), H.fn_id(psd.area), H.fn_id(psd.proc_psd_spec), H.fn_id(dsp.resample),
+    return dict(functions_encoded=[H.fn_id(psd.rescale), H.fn_id(psd.get_freq_oct), H.fn_id(psd.area), H.fn_id(psd.interp), H.fn_id(psd.proc_psd_spec), H.fn_id(dsp.resample),
                                    "pyyeti.dsp._find_closest_times/_find_closest_previous_times [both definitions, from the module AST]",
                                    "pyyeti.dsp.fixtime[base-alignment statement]@" + _base_section()[2]])
